@@ -7,9 +7,10 @@ ops:
   remedy id=<n> name=<enc> allowed=<int> win=<sec> status=<int> spill=<0|1> renew=<int>
          [hdr=<enc> | nohdr] [default=<enc>] [dpct=<n>/<d>] [g=<encval>&<n>/<d>]...     → ok
   req id=<n> t=<ns> [h=<encname>&<encval>]...              → noop | early <status> | err:<class> | panic
-  burst id=<n> t=<ns> n=<count> par=<goroutines> [h=..]...  → passed=<k> blocked=<m> other=<o> status=<s|->
+  burst id=<n> t=<ns> n=<count> par=<goroutines> [h=..]... [alt=<encname>&<encval>]...
+                                                            → passed=<k> blocked=<m> other=<o> status=<s|-> [pa=.. ba=..]
          (count concurrent OnRequest calls at one instant; the model answers for any sequential order)
-  counters t=<ns>                                           → n=<k> <key>=<counter>... (sorted) | panic
+  counters t=<ns>                                           → n=<k> <key>=<counter>... (sorted)   (read-only since fix F09d)
 -/
 open LunarVerif LunarVerif.Proto LunarVerif.C09
 
@@ -108,32 +109,39 @@ def runStep (s : RunSt) (line : String) : RunSt × String :=
       | none => (s, "bad-op")
     | _, _, _ => (s, "bad-op")
   | "burst" :: ws =>
-    match kvNat ws "id", kvNat ws "t", kvNat ws "n", kvNat ws "par", parseHdrs (kvAll ws "h") with
-    | some id, some t, some n, some par, some hs =>
+    match kvNat ws "id", kvNat ws "t", kvNat ws "n", kvNat ws "par", parseHdrs (kvAll ws "h"),
+          parseHdrs (kvAll ws "alt") with
+    | some id, some t, some n, some par, some hs, some alts =>
       if n > 4096 || par < 1 || par > 256 then (s, "bad-op") else
       match s.tbl.get id with
       | some r =>
-        -- n requests at one instant on one key: every interleaving gives the same counts
-        let rec go : Nat → State Key → Nat → Nat → Nat → State Key × Nat × Nat × Nat
-          | 0, st, np, nb, no => (st, np, nb, no)
-          | k + 1, st, np, nb, no =>
-            let (st', a) := pluginStep capFloat st r hs t
+        -- n requests at one instant (request j carries alternative j % len): every interleaving gives the
+        -- same counts per key; the model takes them in index order
+        let na := alts.length
+        let hdrsOf (j : Nat) : List (String × String) :=
+          if na == 0 then hs else hs ++ (alts.drop (j % na)).take 1
+        let bump (l : List Nat) (a : Nat) : List Nat := l.set a (l.getD a 0 + 1)
+        let rec go : Nat → Nat → State Key → Nat → Nat → Nat → List Nat → List Nat →
+            State Key × Nat × Nat × Nat × List Nat × List Nat
+          | 0, _, st, np, nb, no, pa, ba => (st, np, nb, no, pa, ba)
+          | k + 1, j, st, np, nb, no, pa, ba =>
+            let (st', a) := pluginStep capFloat st r (hdrsOf j) t
+            let ai := if na == 0 then 0 else j % na
             match a with
-            | .noop => go k st' (np + 1) nb no
-            | .early _ => go k st' np (nb + 1) no
-            | _ => go k st' np nb (no + 1)
-        let (st', np, nb, no) := go n s.st 0 0 0
+            | .noop => go k (j + 1) st' (np + 1) nb no (bump pa ai) ba
+            | .early _ => go k (j + 1) st' np (nb + 1) no pa (bump ba ai)
+            | _ => go k (j + 1) st' np nb (no + 1) pa ba
+        let (st', np, nb, no, pa, ba) := go n 0 s.st 0 0 0 (List.replicate na 0) (List.replicate na 0)
         let stat := if nb == 0 then "-" else toString (effStatus r)
-        ({ s with st := st' }, s!"passed={np} blocked={nb} other={no} status={stat}")
+        let commas (l : List Nat) : String := ",".intercalate (l.map toString)
+        let tail := if na == 0 then "" else s!" pa={commas pa} ba={commas ba}"
+        ({ s with st := st' }, s!"passed={np} blocked={nb} other={no} status={stat}{tail}")
       | none => (s, "bad-op")
-    | _, _, _, _, _ => (s, "bad-op")
+    | _, _, _, _, _, _ => (s, "bad-op")
   | "counters" :: ws =>
     match kvNat ws "t" with
     | some t =>
-      if s.st.any (fun p => p.2.wd.W == 0) then (s, "panic")
-      else
-        let (st', cs) := countersL t s.st
-        ({ s with st := st' }, fmtCounters cs)
+      (s, fmtCounters (countersL t s.st))
     | none => (s, "bad-op")
   | _ => (s, "bad-op")
 
@@ -175,27 +183,41 @@ def judgeStep (s : JudgeSt) (op out : String) : JudgeSt :=
             | none => s   -- default behaviour / nil GroupBy / missing limiter id / zero window: no limiter event
     | _, _, _ => s
   | "burst" :: ws =>
-    match kvNat ws "id", kvNat ws "t", parseHdrs (kvAll ws "h") with
-    | some id, some t, some hs =>
+    match kvNat ws "id", kvNat ws "t", parseHdrs (kvAll ws "h"), parseHdrs (kvAll ws "alt") with
+    | some id, some t, some hs, some alts =>
       match s.tbl.get id with
       | none => s
       | some r =>
         let ows := words out
+        let nums (k : String) : Option (List Nat) :=
+          (kv ows k).bind fun v => (v.splitOn ",").mapM String.toNat?
         match kvNat ows "passed", kvNat ows "blocked", kvNat ows "other", kv ows "status" with
         | some np, some nb, some no, some stat =>
-          let p : PReq := ⟨r, hs, t⟩
-          -- concurrent requests at one instant on one key: the only sequential explanation of the counts is
-          -- "np passes, then nb rejections" (a key's grid window never frees up within an instant)
+          -- concurrent requests at one instant: per key the only sequential explanation of the counts is
+          -- "passes, then rejections" (a key's grid window never frees up within an instant)
           let rej : Answer := match stat.toInt? with | some c => .early c | none => .err "no-status"
-          let okAll := (np == 0 || answerOk p .noop) && (nb == 0 || answerOk p rej) &&
-                       (no == 0 || (observe1 p .noop).isNone)
-          if !okAll then
-            { s with bad := s.bad <|> some s!"burst-answers-not-as-configured t={t} got={pctEnc out} rejection-status={effStatus r}" }
-          else
-            let evs := (List.replicate nb (observe1 p rej)).filterMap (fun x => x) ++ (List.replicate np (observe1 p .noop)).filterMap (fun x => x)
-            { s with hist := evs ++ s.hist }   -- most recent first: rejections are the latest
+          let groups : Option (List (PReq × Nat × Nat)) :=
+            if alts.isEmpty then some [(⟨r, hs, t⟩, np, nb)]
+            else match nums "pa", nums "ba" with
+              | some pa, some ba =>
+                if pa.length == alts.length && ba.length == alts.length then
+                  some ((alts.zip (pa.zip ba)).map fun (a, p, b) => (⟨r, hs ++ [a], t⟩, p, b))
+                else none
+              | _, _ => none
+          match groups with
+          | none => { s with bad := s.bad <|> some ("unparsable-answer:" ++ pctEnc out) }
+          | some gs =>
+            let okAll := gs.all fun (p, gp, gb) =>
+              (gp == 0 || answerOk p .noop) && (gb == 0 || answerOk p rej) &&
+              (no == 0 || (observe1 p .noop).isNone)
+            if !okAll then
+              { s with bad := s.bad <|> some s!"burst-answers-not-as-configured t={t} got={pctEnc out} rejection-status={effStatus r}" }
+            else
+              let passes := gs.flatMap fun (p, gp, _) => (List.replicate gp (observe1 p .noop)).filterMap (fun x => x)
+              let blocks := gs.flatMap fun (p, _, gb) => (List.replicate gb (observe1 p rej)).filterMap (fun x => x)
+              { s with hist := blocks ++ passes ++ s.hist }   -- most recent first: rejections are the latest
         | _, _, _, _ => { s with bad := s.bad <|> some ("unparsable-answer:" ++ pctEnc out) }
-    | _, _, _ => s
+    | _, _, _, _ => s
   | _ => s
 
 /-- first (oldest) offending event of a single-key history (most recent first) -/
